@@ -16,6 +16,7 @@ import (
 
 	"pgregory.net/rapid"
 
+	"verif/internal/erun"
 	"verif/internal/ev"
 	"verif/internal/hx"
 )
@@ -78,7 +79,7 @@ func TestSurvey(t *testing.T) {
 	if os.Getenv("C08_SURVEY") == "noparse" {
 		seen := map[string]int{}
 		rapid.Check(t, func(rt *rapid.T) {
-			c := genProg(rt)
+			c := genProg(rt, true)
 			if _, err, _ := parse(c.Src); err != nil {
 				k := errType(err)
 				seen[k]++
@@ -90,10 +91,25 @@ func TestSurvey(t *testing.T) {
 		fmt.Println(seen)
 		return
 	}
+	if os.Getenv("C08_SURVEY") == "panics" {
+		seen := map[string]int{}
+		rapid.Check(t, func(rt *rapid.T) {
+			c := genProg(rt, true)
+			r := erun.Run(c.Src, erun.Options{Imports: c.Imports, Debugger: newStepDbg})
+			if r.Panic != nil {
+				seen[r.Panic.Sig]++
+				if seen[r.Panic.Sig] == 1 {
+					fmt.Printf("--- %s\n%s\n", r.Panic.Sig, c.Src[len(progPrelude):])
+				}
+			}
+		})
+		fmt.Println(seen)
+		return
+	}
 	if os.Getenv("C08_SURVEY") == "tolerated" {
 		n := 0
 		rapid.Check(t, func(rt *rapid.T) {
-			c := genProg(rt)
+			c := genProg(rt, true)
 			if f := runCase(c); f != nil && n < 12 {
 				n++
 				fmt.Printf("--- %s\n%s\n", f.Sig, f.Msg)
@@ -106,7 +122,7 @@ func TestSurvey(t *testing.T) {
 			if rapid.IntRange(0, 11).Draw(rt, "mode") == 0 {
 				run(genFiles(rt))
 			} else {
-				run(genProg(rt))
+				run(genProg(rt, true))
 			}
 		})
 	} else if os.Getenv("C08_SURVEY") != "directed" {
